@@ -84,7 +84,8 @@ COMMENTS = frozenset([
 PATT_LINE_TERMINATOR_SEQUENCE = re.compile(
     r'(\n|\r(?!\n)|\u2028|\u2029|\r\n)', flags=re.S)
 PATT_TOKEN_SEPARATORS = re.compile(
-    r'(?:\s|\ufeff|//[^\r\n\u2028\u2029]*|/\*[^*]*\*+(?:[^/*][^*]*\*+)*/)*',
+    r'(?:\s|\ufeff|//[^\r\n\u2028\u2029]*(?=[\r\n\u2028\u2029]|\Z)'
+    r'|/\*[^*]*\*+(?:[^/*][^*]*\*+)*/)*',
     flags=re.U)
 PATT_LINE_CONTINUATION = re.compile(
     r'\\(\n|\r(?!\n)|\u2028|\u2029|\r\n)', flags=re.S)
